@@ -864,7 +864,9 @@ class BackendZ3(Backend):
         if track:
             already_tracked = {str(impl.children()[0]) for impl in s.assertions()}
             for constraint in c:
-                name = str(hash(constraint))
+                # (the AST id is unique within the context; Z3's 32-bit AST hash is not, and a constraint whose hash
+                # collided with a tracked one was silently never asserted)
+                name = str(constraint.get_id())
                 if name not in already_tracked:
                     s.assert_and_track(constraint, name)
                     already_tracked.add(name)
